@@ -406,4 +406,30 @@ def check (params lines : List String) : CaseResult := Id.run do
                 else s!"wait_false_after_cease: waits {lateFalse} false after the cease-flow trace")
   return { r with nontrivial := h.answered && !h.waits.isEmpty }
 
+/-- Family `c02obs`: an observer of the instance's tracer stops reading after the last answer (buffer `b`), then waits
+itself; a second waiter waits too. Every start event has fired and the last token is gone (its remaining traces fit into
+the tracers' buffers): both waits report completion, and the cease-flow trace is there once when the observer reads on. -/
+def checkObs (params lines : List String) : CaseResult := Id.run do
+  let mut r : CaseResult := { nontrivial := true }
+  let b := params.getD 1 "?"
+  let mut sawWait := false
+  let mut sawCease := false
+  for ln in lines do
+    match words ln with
+    | "harness-error" :: _ => r := { r with bad := ln :: r.bad }
+    | ["obs", "answered", a, "of", k] =>
+      r := { r with specs := s!"observer_run_stuck: {a} of {k} tasks could be answered" :: r.specs }
+    | ["obs", "wait", w, o] =>
+      sawWait := true
+      if w != "worker=1" || o != "other=1" then
+        r := { r with specs := s!"completion_waits_for_observer: every start event fired and the last token is gone, an observer with buffer {b} has stopped reading: WaitUntilComplete {w} {o} (expected both 1)" :: r.specs }
+    | ["obs", "cease", n] =>
+      sawCease := true
+      if n != "1" then
+        r := { r with specs := s!"cease_not_once_for_observer: the observer finds {n} cease-flow traces when it reads on" :: r.specs }
+    | _ => pure ()
+  if r.specs.isEmpty && r.bad.isEmpty && !(sawWait && sawCease) then
+    r := { r with bad := ["c02obs: incomplete record"] }
+  return r
+
 end Bpmn.Driver.C02
